@@ -317,6 +317,7 @@ def c19(rec, tier):
     f4_vm.diagnostics_gate(rec, F)
     f4_repl.run_redeclare(rec, F)
     f4_repl.run_capture_arms(rec, S)
+    f4_repl.run_upsert(rec, F)
     # fibers queued by one entry are still there for the next: the run queue is only ever pushed to and popped from
     f4_sched.run_queue_fifo(rec, F)
     f10_parity.run_number_equality(rec, F, "unboxed")
